@@ -148,6 +148,45 @@ def judge_sequenced(stream: list[dict], batch_size: int, flt: dict | None,
     return "held", None, info
 
 
+def judge_top_up(stream: list[dict], batch_size: int, cut: int) -> tuple[str, dict | None, dict]:
+    """One holder: ingest a first part, stream it (consumed completely), ingest a top-up in a
+    new `with holder:` block, stream again - the second stream must describe the whole store
+    (spans, traces, and the parent/child links the top-up added)."""
+    info: dict = {}
+    part1, part2 = stream[:cut], stream[cut:]
+    holder = None
+    try:
+        holder = store.new_holder("sqlite:///:memory:", batch_size)
+        store.ingest(holder, part1)
+        store.stream_all(holder, None)
+        store.ingest(holder, part2)
+        got = store.stream_all(holder, None)
+    except Exception as exc:
+        return f"violated:top-up:exception:{type(exc).__name__}", {"exc": repr(exc)[:300]}, info
+    finally:
+        if holder is not None:
+            holder.engine.dispose()
+    model = store.model_first_wins(stream)
+    kids: dict[str, set] = {}
+    for s in model.values():
+        if s["parent_event_id"]:
+            kids.setdefault(s["parent_event_id"], set()).add(s["event_id"])
+    seen = set()
+    for name, traces in got:
+        for tr in traces:
+            for e in tr:
+                seen.add(e["event_id"])
+                if sorted(e["child_event_ids"] or []) != sorted(kids.get(e["event_id"], set())):
+                    return "violated:top-up:child-links-wrong", {
+                        "event_id": e["event_id"], "got": sorted(e["child_event_ids"] or []),
+                        "want": sorted(kids.get(e["event_id"], set()))}, info
+    if seen != set(model):
+        return "violated:top-up:spans-differ", {"missing": sorted(set(model) - seen)[:5],
+                                                "extra": sorted(seen - set(model))[:5]}, info
+    info["top_up_links_added"] = sum(1 for s in part2 if s["parent_event_id"])
+    return "held", None, info
+
+
 def gen_case(rng: random.Random) -> tuple[list[dict], int, dict | None, dict]:
     names = rng.sample(["a", "b", "c d", "e", "A", "Orders", "orders"], rng.randint(1, 5))
     st = store.gen_store(rng, rng.randint(1, 12), names, ["A", "B", "C"], 12, hostile=False)
@@ -256,6 +295,15 @@ def run_chunk(case: dict) -> dict:
         if v.startswith("violated") and len(fails) < 4:
             fails.append({"symptom": v[9:], "detail": d, "stream": stream, "batch_size": b,
                           "filter": eff, "meta": meta})
+        if idx % 4 == 1 and len(stream) >= 3:
+            cut = rng.randint(1, len(stream) - 1)
+            v4, d4, info4 = judge_top_up(stream, b, cut)
+            n += 1
+            bump("top_up:" + v4.split(":")[0])
+            bump("top_up_links_added_after_first_stream", info4.get("top_up_links_added", 0))
+            if v4.startswith("violated") and len(fails) < 4:
+                fails.append({"symptom": v4[9:], "detail": d4, "stream": stream, "batch_size": b,
+                              "filter": None, "meta": {"top_up": True, "cut": cut}})
         if idx % 3 == 0:
             # second observation point: the real consumer, on a store that may hold broken
             # traces (state before cleaning)
@@ -337,6 +385,9 @@ def main(tier: str, seed: int) -> int:
 
 
 def run_replay(case: dict) -> dict:
+    if case.get("meta", {}).get("top_up"):
+        v, d, info = judge_top_up(case["stream"], case["batch_size"], case["meta"]["cut"])
+        return {"status": "ok", "verdict": v, "detail": d}
     if case.get("meta", {}).get("sequenced"):
         v, d, info = judge_sequenced(case["stream"], case["batch_size"], case["filter"],
                                      case["meta"].get("collect_first", False))
